@@ -7,9 +7,12 @@ package verifhooks
 
 import (
 	"github.com/corazawaf/coraza/v3/experimental/plugins/plugintypes"
+	"github.com/corazawaf/coraza/v3/internal/actions"
 	"github.com/corazawaf/coraza/v3/internal/memoize"
 	"github.com/corazawaf/coraza/v3/internal/operators"
+	"github.com/corazawaf/coraza/v3/internal/seclang"
 	"github.com/corazawaf/coraza/v3/internal/transformations"
+	"github.com/corazawaf/coraza/v3/internal/variables"
 )
 
 // Transformation returns the registered transformation with the given name.
@@ -25,4 +28,10 @@ func Operator(name string, opts plugintypes.OperatorOptions) (plugintypes.Operat
 // MemoizeKeys lists the live entries of the process-wide pattern cache.
 func MemoizeKeys() []string {
 	return memoize.VerifKeys()
+}
+
+// Names lists what is registered in the running binary: directives, actions, operators,
+// transformations and variables.
+func Names() (directives, acts, ops, tfs, vars []string) {
+	return seclang.VerifNames(), actions.VerifNames(), operators.VerifNames(), transformations.VerifNames(), variables.VerifNames()
 }
